@@ -32,6 +32,12 @@ INL = [
     "\n", " ", "  \n", "don't", '"a"', "'b'", "«", "é", ".", ",", "-", "[r]: \"x\"", "\\(c\\)", "\\.\\.\\.", "\\-\\-", "&#40;c&#41;", "&hellip;", "\\,,", ",\\,", "\\?\\?\\?\\?",
     "<a@b.c>", "http://x.y/\"z\"", "x--y", "x -- y", "-- ", "(c", "c)", "(TM)", "<!-- \"c\" -- -->", "```\n\"q\" -- ...\n```", "    \"code\" (c)\n", "\n\n", "> \"q\n> r\"", "- 'a\n- b'",
 ]
+TRIGGERS = ["(c)", "(C)", "(r)", "(R)", "(tm)", "(TM)", "+-", "..", "...", "....", "?....", "!....", "????", "!!!!!", ",,", "--", "---", "a--b", "\"", "'", "\"q\"", "'r'", "don't"]
+LITERAL_CONTEXTS = [
+    "`{t}`", "`` x {t} y ``", "<http://a.b/{t}>", "<http://a.b/x{t}y{t}>", "<a title=\"{t}\">", "<!-- {t} -->", "[l]({u} \"{t}\")", "[l](/{t})", "![i](/{t} '{t}')",
+    "```\n{t}\n```", "``` {t}\nx\n```", "    {t}\n", "<div>\n{t}\n</div>", "[r]: /{t} \"{t}\"\n\n[r]", "http://x.y/{t}", "a@b.c {t}", "\\{t}", "&#40;c&#41; {t}",
+    "*{t}*", "# {t}", "> {t}", "| {t} |\n|-|", "[{t}](u)", "![{t}](u)",
+]
 QUOTES = [
     "“”‘’", "«»„“", ["« ", " »", "‹ ", " ›"], ["<<", ">>", "<", ">"], ["", "", "", ""], "\"\"''", ['"x', 'y"', "'z", "w'"], "'\"\"'", ["&quot;", "&quot;", "&#39;", "&#39;"],
     "abcd", ["``", "''", "`", "'"], ["*", "*", "_", "_"],
@@ -58,7 +64,16 @@ def _case(draw):
                 frags.append(["r", d.pick(RAWFRAGS)])
         return {"kind": "escape-vs-entity", "preset": preset, "quotes": q, "mode": d.pick(["sq", "rep", "both"]), "frags": frags}
     mode = d.pick(["sq", "rep", "both"])
-    k = d.i(0, 9)
+    k = d.i(0, 11)
+    if k >= 10:
+        parts = []
+        for _ in range(d.i(1, 3)):
+            c = d.pick(LITERAL_CONTEXTS)
+            while "{t}" in c:
+                c = c.replace("{t}", d.pick(TRIGGERS), 1)
+            parts.append(c.replace("{u}", "/u"))
+        src = d.pick(["\n\n", " ", "\n"]).join(parts)
+        return {"kind": "onoff", "preset": preset, "quotes": q, "mode": mode, "src": src, "linkify": d.chance(0.4), "html": d.chance(0.6)}
     if k < 6:
         src = "".join(d.pick(INL) + d.pick(["", " ", ""]) for _ in range(d.i(1, 10)))
     elif k < 8:
